@@ -442,6 +442,23 @@ ZOO_IDLE(FSM, Q);	ZOO_BUSY(FSM, QC);	ZOO_BUSY(FSM, QC1);	ZOO_IDLE(FSM, QC2);	ZOO
 ZOO_BUSY(FSM, L);
 }
 
+//------------------------------------------------------------------------------
+// Z10: an orthogonal region wider than 8 (two request-bit units) ahead of further orthogonal regions: ORTHO_UNIT != ORTHO_INDEX and
+// REGION_ID != COMPO_INDEX for the regions behind it (the index constants of the accessors are only distinguishable here).
+
+namespace z10 {
+using M = MA;
+using FSM = M::PeerRoot<
+	M::OrthogonalPeers<S(V1), S(V2), S(V3), S(V4), S(V5), S(V6), S(V7), S(V8), M::Composite<S(V9), S(V91), S(V92)>>,
+	M::Orthogonal<S(T), M::Composite<S(TC), S(TC1), S(TC2)>, M::OrthogonalPeers<S(TO1), M::Resumable<S(TO2), S(TO21), S(TO22)>>>,
+	M::Composite<S(Y), S(Y1), S(Y2)>
+>;
+ZOO_BUSY(FSM, V1);	ZOO_IDLE(FSM, V2);	ZOO_IDLE(FSM, V3);	ZOO_IDLE(FSM, V4);	ZOO_BUSY(FSM, V5);	ZOO_IDLE(FSM, V6);	ZOO_IDLE(FSM, V7);	ZOO_IDLE(FSM, V8);
+ZOO_BUSY(FSM, V9);	ZOO_BUSY(FSM, V91);	ZOO_IDLE(FSM, V92);
+ZOO_BUSY(FSM, T);	ZOO_BUSY(FSM, TC);	ZOO_BUSY(FSM, TC1);	ZOO_IDLE(FSM, TC2);	ZOO_BUSY(FSM, TO1);	ZOO_BUSY(FSM, TO2);	ZOO_BUSY(FSM, TO21); ZOO_IDLE(FSM, TO22);
+ZOO_BUSY(FSM, Y);	ZOO_BUSY(FSM, Y1);	ZOO_IDLE(FSM, Y2);
+}
+
 #undef S
 
 //------------------------------------------------------------------------------
@@ -755,6 +772,13 @@ inline void buildAll() noexcept {
 		ZL(ZooLogger<FSM> logger;)
 		FSM::Instance m{ZL(&logger)};
 		exerciseCommon<FSM>(m);
+	}
+	{
+		using FSM = z10::FSM;
+		ZL(ZooLogger<FSM> logger;)
+		FSM::Instance m{ZL(&logger)};
+		exerciseCommon<FSM>(m);
+		FSM::Instance c{m};
 	}
 #endif
 }
